@@ -265,6 +265,7 @@ def check(src, rep):
     emit(rep, m, fresh_only_at_flag(m), {"start-at-flag": "R5"})
     emit(rep, m, [r for r in conformance(m) if r.instance in ("emit", "start")], {"row": "R5"})
     from sa.cross import include
+    include(rep, src, "C02", {"R1"}, "R5", "every octet received between two flags is appended to the frame exactly once, un-stuffed, in input order (the reader's per-octet step refines the reference automaton)")
     include(rep, src, "C16", {"R1"}, "R5", "the octets of a returned frame are the un-stuffed input between its two flags (no per-frame state of an earlier frame is applied to it)")
     rep.floor("accessors analysed", rep.analysed.get("accessors", 0), 9)
     rep.floor("appending rows", sum(1 for sp in m.paths if m.feasible(sp) and sp.post.appends), 4)
